@@ -104,6 +104,14 @@ def cases(tier, seed):
             out.append({"part": "sched", "clients": 3, "P": 1, "range": [lo, lo + 10]})
     for lo in range(0, 120, 10):
         out.append({"part": "late-dup", "P": 2 if tier == "quick" else 3, "range": [lo, lo + 10]})
+    # own-the-nondeterminism cross-check: the same harness with every source line of canopen as a scheduling point
+    # (shared state the attribute-level points do not see, e.g. a buffer hoisted to module scope)
+    if tier == "quick":
+        for lo in range(0, 800, 25):
+            out.append({"part": "sched", "clients": 2, "P": 1, "range": [lo, lo + 25], "lines": True, "mini": True})
+    else:
+        for lo in range(0, 3200, 40):
+            out.append({"part": "sched", "clients": 2, "P": 1, "range": [lo, lo + 40], "lines": True})
     return out
 
 
@@ -243,7 +251,7 @@ def run_access(case, st):
 
 
 # ------------------------------------------------------------------ (b) schedules
-def sched_harness(nclients, s):
+def sched_harness(nclients, s, mini=False):
     import can
     import canopen
     import canopen.sdo.client as cl_mod
@@ -259,20 +267,36 @@ def sched_harness(nclients, s):
     results = {}
     done = []
 
+    # every client works on its own pair of objects (different multiplexers in the request frames)
+    NUM = {5: "UNSIGNED16", 6: "UNSIGNED32", 7: "INTEGER16"}
+    STR = {5: "VISIBLE_STRING", 6: "OCTET_STRING", 7: "DOMAIN"}
+
     def client(n):
         def body():
             try:
+                num, strt = NUM[n], STR[n]
                 v16 = 0x1111 * (n - 3)
                 text = "client-%d" % n
-                remote[n].sdo["T_UNSIGNED16"].raw = v16
-                l16 = local[n].sdo["T_UNSIGNED16"].raw                # read back from the local side at once
-                remote[n].sdo["T_VISIBLE_STRING"].raw = text          # 8 bytes -> segmented (2 segments)
-                lt = local[n].sdo["T_VISIBLE_STRING"].raw
-                got16 = remote[n].sdo["T_UNSIGNED16"].raw
-                gott = remote[n].sdo["T_VISIBLE_STRING"].raw
+                if strt != "VISIBLE_STRING":
+                    text = text.encode()
+                remote[n].sdo["T_" + num].raw = v16
+                l16 = local[n].sdo["T_" + num].raw                    # read back from the local side at once
+                if mini:
+                    got16 = remote[n].sdo["T_" + num].raw
+                    ok = got16 == v16 and l16 == v16
+                    results[n] = "ok" if ok else f"WRONG remote={got16!r} local={l16!r}"
+                    done.append(n)
+                    s.wake(pa)
+                    s.wake(pb)
+                    return
+                remote[n].sdo["T_" + strt].raw = text                 # 8 bytes -> segmented (2 segments)
+                lt = local[n].sdo["T_" + strt].raw
+                got16 = remote[n].sdo["T_" + num].raw
+                gott = remote[n].sdo["T_" + strt].raw
+                raw_text = text if isinstance(text, bytes) else text.encode()
                 ok = got16 == v16 and gott == text and l16 == v16 and lt == text and \
-                    bytes(local[n].data_store[idx["UNSIGNED16"]][0]) == struct.pack("<H", v16) \
-                    and bytes(local[n].data_store[idx["VISIBLE_STRING"]][0]) == text.encode()
+                    bytes(local[n].data_store[idx[num]][0]) == codec.encode_int(num, v16) \
+                    and bytes(local[n].data_store[idx[strt]][0]) == raw_text
                 results[n] = "ok" if ok else f"WRONG remote=({got16!r}, {gott!r}) local=({l16!r}, {lt!r})"
             except Exception as e:  # noqa: BLE001
                 results[n] = "EXC " + type(e).__name__ + ": " + str(e)[:60]
@@ -330,15 +354,26 @@ def run_sched(case, st):
                 return
         st.outcome("all clients ok")
 
+    root = None
+    if case.get("lines"):
+        import os
+        import canopen
+        root = os.path.dirname(os.path.abspath(canopen.__file__))
+        if case.get("mini"):
+            # quick tier: the modules through which two transfers can share state (SDO client/server, network, nodes)
+            root = tuple(os.path.join(root, x) for x in ("sdo", "network.py", "node"))
+    mini = bool(case.get("mini"))
     if "schedule" in case:
         simenv.new_world()
-        s = vsched.Scheduler(case["schedule"], horizon=20000)
-        result = sched_harness(case["clients"], s)
+        s = vsched.Scheduler(case["schedule"], horizon=200000, line_root=root)
+        result = sched_harness(case["clients"], s, mini)
         s.run()
         on_exec(s, result())
         return
-    stats = vsched.explore_schedules(lambda s: sched_harness(case["clients"], s), case["P"], on_exec=on_exec, horizon=20000,
-                                     first_dev_range=tuple(case["range"]), deviation_cost="deviation")
+    stats = vsched.explore_schedules(lambda s: sched_harness(case["clients"], s, mini), case["P"], on_exec=on_exec, horizon=200000,
+                                     first_dev_range=tuple(case["range"]), deviation_cost="deviation", line_root=root)
+    if root:
+        st.count("line_level_schedules", stats["executions"])
     st.states += stats["executions"]
     st.count("schedules", stats["executions"])
     st.count("schedules_with_preemption", stats["with_preemption"])
